@@ -352,13 +352,19 @@ def _check_inverse(ctx: Ctx) -> None:
             continue
         fwd = M.lookup_method(c, '_calc_deterministic_path_loss_dB')
         ok, detail = False, {}
+        returns_value = any(isinstance(n, ast.Return) and n.value is not None and not (isinstance(n.value, ast.Constant) and n.value.value is None)
+                            for n in walk_no_nested(inv.node))
         try:
-            pi, ti = T.function_term(M, inv)
-            pf, tf = T.function_term(M, fwd)
+            # every repo callee (the dB/linear converters, helpers) is looked through
+            pi, ti = T.function_term(M, inv, opaque=set())
+            pf, tf = T.function_term(M, fwd, opaque=set())
             comp = T.substitute(ti, {pi[0]: tf})
             ok = comp == T.Term.sym(pf[0])
             detail = {'inverse': ti.pretty(), 'forward': tf.pretty(), 'inverse(forward(d))': comp.pretty()}
         except T.Unknown as e:
+            if returns_value:
+                ctx.error('C13.d: %s returns a value that is not a closed formula (%s): whether it inverts the forward formula is not decidable '
+                          'here (cannot tell)' % (construct, e))
             detail = {'not_a_formula': str(e), 'body': [norm(s)[:60] for s in body]}
         ctx.obligation('C13.d', construct, ok, detail)
         if not ok:
